@@ -77,6 +77,10 @@ OpId(id) == With(OO(<< <<"operationId", S(id)>> >>), << <<"responses", OO(<< <<"
 QParam(style, explode) == OO(<< <<"name", S("q")>>, <<"in", S("query")>>, <<"style", S(style)>>,
                                <<"explode", B(explode)>>, <<"schema", TString>> >>)
 InParam(in, style) == OO(<< <<"name", S("q")>>, <<"in", S(in)>>, <<"style", S(style)>>, <<"schema", TString>> >>)
+(* component names: ^[a-zA-Z0-9._-]+$ *)
+BadNames == {[tag |-> "empty", cs |-> cEmpty], [tag |-> "slash", cs |-> cNameSl], [tag |-> "nonascii", cs |-> cNameUni]}
+GoodNames == {[tag |-> "one_char", cs |-> cName1], [tag |-> "dot", cs |-> cNameDots], [tag |-> "dash", cs |-> cNameDash],
+              [tag |-> "underscore", cs |-> cNameUnd], [tag |-> "punct", cs |-> cNameMix], [tag |-> "digit_first", cs |-> cNameDig]}
 (* parameters given by reference: components.parameters.R0 / R1 *)
 PRef(cs) == OO(<< <<"$ref", S(RefStr("parameters", Join(cs)))>> >>)
 PComp(cs, obj) == <<"parameters", Join(cs), obj>>
@@ -103,9 +107,12 @@ PathOnlyVars == {"path_simple", "path_label", "path_matrix", "path_matrix_explod
 
 Goods0(kind) ==
    {G("min", Min(kind))}
-   \cup (IF kind \in FixedKinds THEN {G("ext", With(Min(kind), << <<sExt, N(1)>> >>))} ELSE {})
+   \cup (IF kind \in FixedKinds THEN {G("ext", With(Min(kind), << <<sExt, N(1)>> >>)),
+                                      G("ext_bare", With(Min(kind), << <<Join(cExtBare), N(1)>> >>))} ELSE {})
    \cup
-   CASE kind = "root" -> {G("full", With(Min("root"), << <<"servers", A(<<Min("server")>>)>>,
+   CASE kind = "root" -> {GC("security_declared", With(Min("root"), << <<"security", A(<<OO(<< <<Join(cNameR), A(<<>>)>> >>)>>)>> >>),
+                              <<<<"securitySchemes", Join(cNameR), Min("securityScheme")>>>>)} \cup
+                         {G("full", With(Min("root"), << <<"servers", A(<<Min("server")>>)>>,
                                <<"tags", A(<<Min("tag")>>)>>, <<"externalDocs", Min("externalDocs")>>,
                                <<"security", A(<<EmptyO>>)>> >>))}
      [] kind = "info" -> {G("full", With(Min("info"), << <<sDescr, S("d")>>, <<"termsOfService", UrlPlain>>,
@@ -113,12 +120,16 @@ Goods0(kind) ==
      [] kind = "server" -> {G("var", OO(<< <<"url", S(Join(cUrlVar))>>,
                                <<"variables", OO(<< <<"v", Min("serverVariable")>> >>)>> >>))}
      [] kind = "components" -> {G("dotname", OO(<< <<"schemas", OO(<< <<Join(cNameDot), TString>> >>)>> >>))}
+          \cup {G(SectionOf(k) \o "_" \o n.tag, OO(<< <<SectionOf(k), OO(<< <<Join(n.cs), Min(k)>> >>)>> >>))
+                  : k \in RefKinds, n \in GoodNames}
      [] kind = "paths" ->
           {G("var_op", OO(<< <<Join(cPathId), OO(<< <<"get", OpWith(<<PathParam("id")>>)>> >>)>> >>)),
            G("var_common", OO(<< <<Join(cPathId), OO(<< <<"parameters", A(<<PathParam("id")>>)>>, <<"get", Op>>,
                                                         <<"post", Op>> >>)>> >>)),
            G("var_mixed", OO(<< <<Join(cPathIdK), OO(<< <<"parameters", A(<<PathParam("id")>>)>>,
                                                         <<"put", OpWith(<<PathParam("k")>>)>> >>)>> >>)),
+           G("ids_differ_in_case", OO(<< <<Join(cPathP), OO(<< <<"get", OpId("a")>>, <<"post", OpId("A")>> >>)>> >>)),
+           G("ids_empty", OO(<< <<Join(cPathP), OO(<< <<"get", OpId("")>>, <<"post", OpId("")>> >>)>> >>)),
            G("two_paths", OO(<< <<Join(cPathP), OO(<< <<"get", OpId("a")>>, <<"post", OpId("b")>> >>)>>,
                                 <<Join(cPathQ), OO(<< <<"get", OpId("c")>> >>)>> >>)),
            G("var_two_paths", OO(<< <<Join(cPathId), OO(<< <<"get", OpWith(<<PathParam("id")>>)>> >>)>>,
@@ -129,6 +140,7 @@ Goods0(kind) ==
                               G("same_name_other_in", OO(<< <<"parameters", A(<<Min("parameter"),
                                      OO(<< <<"name", S("q")>>, <<"in", S("header")>>, <<"schema", TString>> >>)>>)>> >>))}
      [] kind = "operation" -> {GC(x.var, OpWith(x.ps), x.comps) : x \in DistinctLists} \cup
+                              {G("response_codes", OO(<< <<"responses", OO(<< <<"2XX", RespD>>, <<"404", RespD>>, <<"default", RespD>> >>)>> >>))} \cup
                               {G("full", With(OO(<< <<"operationId", S("o")>>, <<"tags", A(<<S("g")>>)>>,
                                      <<"summary", S("s")>>, <<"deprecated", B(TRUE)>>, <<"security", A(<<EmptyO>>)>> >>),
                                      << <<"responses", OO(<< <<"default", RespD>> >>)>> >>)),
@@ -160,7 +172,9 @@ Goods0(kind) ==
            G("example", With(Min("header"), << <<"example", S("x")>> >>)),
            G("examples", With(Min("header"), << <<"examples", ExOK>> >>))}
      [] kind = "requestBody" -> {G("full", With(Min("requestBody"), << <<"required", B(TRUE)>>, <<sDescr, S("d")>> >>)),
-                                 G("two_types", OO(<< <<"content", Content2>> >>))}
+                                 G("two_types", OO(<< <<"content", Content2>> >>)),
+                                 G("media_ranges", OO(<< <<"content", OO(<< <<"*/*", MtMin>>, <<"application/*", MtMin>>,
+                                       <<"application/json; charset=utf-8", MtMin>> >>)>> >>))}
      [] kind = "response" -> {G("empty_description", OO(<< <<sDescr, S("")>> >>)),
                               G("full", With(RespD, << <<"headers", OO(<< <<"H", Min("header")>> >>)>>,
                                      <<"content", Content1>>, <<"links", OO(<< <<"L", Min("link")>> >>)>> >>))}
@@ -205,7 +219,8 @@ Goods0(kind) ==
 
 (*----------------------- single violations per kind -----------------------*)
 Bads0(kind) ==
-   (IF kind \in FixedKinds THEN {Bd("extra_field", "bogus", With(Min(kind), << <<sBogus, N(1)>> >>))} ELSE {})
+   (IF kind \in FixedKinds THEN {Bd("extra_field", "bogus", With(Min(kind), << <<sBogus, N(1)>> >>)),
+                                     Bd("extra_field", "upper_x", With(Min(kind), << <<Join(cExtUp), N(1)>> >>))} ELSE {})
    \cup
    CASE kind = "root" ->
           {Bd("openapi_missing", "absent", Drop(Min("root"), {"openapi"})),
@@ -222,15 +237,24 @@ Bads0(kind) ==
            Bd("url_missing", "empty", OO(<< <<"url", S("")>> >>)),
            Bd("brace_mismatch", "open", OO(<< <<"url", S(Join(cUrlOpen))>> >>)),
            Bd("variable_mismatch", "undeclared", OO(<< <<"url", S(Join(cUrlVar))>> >>)),
+           Bd("variable_mismatch", "case", OO(<< <<"url", S(Join(cUrlVar))>>,
+                                                 <<"variables", OO(<< <<"V", Min("serverVariable")>> >>)>> >>)),
            Bd("variable_mismatch", "unused", OO(<< <<"url", UrlPlain>>,
                                                    <<"variables", OO(<< <<"v", Min("serverVariable")>> >>)>> >>))}
      [] kind = "serverVariable" -> {Bd("default_missing", "absent", OO(<< <<sDescr, S("d")>> >>))}
      [] kind = "components" ->
           {Bd("bad_component_name", SectionOf(k) \o "_space", OO(<< <<SectionOf(k), OO(<< <<Join(cNameSp), Min(k)>> >>)>> >>))
               : k \in RefKinds}
+          \cup {Bd("bad_component_name", SectionOf(k) \o "_" \o n.tag, OO(<< <<SectionOf(k), OO(<< <<Join(n.cs), Min(k)>> >>)>> >>))
+                  : k \in RefKinds, n \in BadNames}
           \cup {Bd("bad_component_name", "schemas_dollar", OO(<< <<"schemas", OO(<< <<Join(cNameDol), TString>> >>)>> >>))}
      [] kind = "paths" ->
           {Bd("no_leading_slash", "p", OO(<< <<Join(cPathNoSl), EmptyO>> >>)),
+           Bd("no_leading_slash", "empty", OO(<< <<Join(cEmpty), EmptyO>> >>)),
+           Bd("no_leading_slash", "variable_first", OO(<< <<Join(cPathVar), EmptyO>> >>)),
+           Bd("no_leading_slash", "second_path", OO(<< <<Join(cPathQ), EmptyO>>, <<Join(cPathNoSl), EmptyO>> >>)),
+           Bd("template_mismatch", "empty_variable", OO(<< <<Join(cPathEV), OO(<< <<"get", Op>> >>)>> >>)),
+           Bd("template_mismatch", "case", OO(<< <<Join(cPathId), OO(<< <<"get", OpWith(<<PathParam("Id")>>)>> >>)>> >>)),
            Bd("template_mismatch", "undeclared", OO(<< <<Join(cPathId), OO(<< <<"get", Op>> >>)>> >>)),
            Bd("template_mismatch", "undeclared_second_op",
               OO(<< <<Join(cPathId), OO(<< <<"get", OpWith(<<PathParam("id")>>)>>, <<"post", Op>> >>)>> >>)),
@@ -259,6 +283,10 @@ Bads0(kind) ==
            Bd("responses_empty", "empty", OO(<< <<"responses", EmptyO>> >>))}
      [] kind = "parameter" ->
           {Bd("name_missing", "absent", Drop(Min("parameter"), {"name"})),
+           Bd("name_missing", "empty", Set(Min("parameter"), "name", S(""))),
+           Bd("in_invalid", "case", Set(Min("parameter"), "in", S("Query"))),
+           Bd("in_invalid", "empty", Set(Min("parameter"), "in", S(""))),
+           Bd("bad_style", "case", InParam("query", "Form")),
            Bd("in_invalid", "body", Set(Min("parameter"), "in", S("body"))),
            Bd("in_invalid", "absent", Drop(Min("parameter"), {"in"})),
            Bd("bad_style", "query_simple", InParam("query", "simple")),
@@ -296,6 +324,7 @@ Bads0(kind) ==
                               Bd("bad_style", "deep_noexplode", OO(<< <<"style", S("deepObject")>>, <<"explode", B(FALSE)>> >>))}
      [] kind = "schema" ->
           {Bd("readonly_and_writeonly", "both", With(TString, << <<"readOnly", B(TRUE)>>, <<"writeOnly", B(TRUE)>> >>)),
+           Bd("unknown_type", "case", OO(<< <<"type", S("String")>> >>)),
            Bd("unknown_type", "strin", OO(<< <<"type", S("strin")>> >>)),
            Bd("array_without_items", "array", OO(<< <<"type", S("array")>> >>)),
            Bd("default_mismatch", "number", With(TString, << <<"default", N(1)>> >>)),
@@ -316,7 +345,10 @@ Bads0(kind) ==
      [] kind = "link" -> {Bd("operation_both", "both", With(Min("link"), << <<"operationRef", S("#/paths/~1p/get")>> >>)),
                           Bd("operation_missing", "absent", OO(<< <<sDescr, S("d")>> >>))}
      [] kind = "securityScheme" ->
-          {Bd("ss_type", "foo", OO(<< <<"type", S("foo")>> >>)),
+          {Bd("ss_type", "case", OO(<< <<"type", S("HTTP")>>, <<"scheme", S("basic")>> >>)),
+           Bd("ss_apikey_in", "case", OO(<< <<"type", S("apiKey")>>, <<"name", S("k")>>, <<"in", S("Header")>> >>)),
+           Bd("ss_apikey_name", "empty", OO(<< <<"type", S("apiKey")>>, <<"name", S("")>>, <<"in", S("header")>> >>)),
+           Bd("ss_type", "foo", OO(<< <<"type", S("foo")>> >>)),
            Bd("ss_type", "absent", OO(<< <<sDescr, S("d")>> >>)),
            Bd("ss_apikey_in", "body", OO(<< <<"type", S("apiKey")>>, <<"name", S("k")>>, <<"in", S("body")>> >>)),
            Bd("ss_apikey_in", "absent", OO(<< <<"type", S("apiKey")>>, <<"name", S("k")>> >>)),
